@@ -65,6 +65,19 @@ CLAIMED = {
         note=TB + "inspect.signature is trusted for methods/partials; py_bind covers positional-only and named-only calls (the only shapes JSON-RPC produces).",
         technique="Coq proof (list lemmas over filter/existsb) + exhaustive vm_compute correspondence incl. the real call as binding oracle",
         ref='6/C19'),
+    'C13': dict(
+        text=("Proof (limiter on its own): for EVERY label sequence (start / resume of a queued waiter / exit / cancel of a "
+              "queued waiter / set_target n>=1) of the LTS of Concurrency over CPython 3.12's Semaphore: conservation "
+              "(holders + free + handed-over permits = _sem_value, value >= 0), bound (holders <= largest target ever in force), "
+              "lowering (holders <= target + excess; excess never grows without set_target; each exit while there is excess "
+              "retires exactly one), raising (an admission brings the permits up to the target), FIFO hand-over to the first "
+              "pending waiter, an exit at or below the limit serves the head of the queue, target <= 0 refuses entry. "
+              "Tie: trace acceptance against the real object, one event-loop handle per label, every field compared after "
+              "every label. The session-level clauses (handlers in flight, unanswered-request count) are covered by the "
+              "session scenarios of this check only as correspondence/oracle, not by a theorem (partial)."),
+        note=TB + "asyncio.Semaphore semantics (locked/acquire/release/_wake_up_next, hand-over at wake-up) are modelled from CPython 3.12.1 and validated by the traces; the order in which resumed tasks run is left to the adversary (the theorems hold for every order).",
+        technique="Coq proof (LTS invariant by induction over label lists) + per-handle trace acceptance against the real Concurrency on a single-step event loop",
+        ref='6/C13'),
 }
 
 REASONS = {}
